@@ -33,7 +33,7 @@ def spec(tier):
             "interaction grouping factors), frames of 1..40 rows with unequal level counts, a third with hostile "
             "level names (: | [ ] spaces, empty, non-ASCII); each design is also evaluated on a new frame made of "
             "rows of the training frame. distinct = distinct (formula text, frame seed); non-trivial = at least "
-            "one categorical factor or interaction. W0: the repository's tests under the same contract (generic mode)."
+            "one categorical factor or interaction. Directed: raw polynomial pieces in ':' labels; frames with a missing categorical / grouping value built with na_action='pass' (a refusal is noted, a returned design is judged). W0: the repository's tests under the same contract (generic mode)."
         ),
         "assumptions": [
             "judged domain is the statement's: numeric variables / pointwise calls and treatment-coded factors; Sum codings and multi-column transforms are counted as not judged here (C13/C14/C17)",
